@@ -1,5 +1,7 @@
 def nontrivial(c):
     ops = [l.split(" ")[1] for l in c["lines"] if l.startswith("op ")]
+    if "outq" in ops and "post" in ops and "ev" in ops:
+        return True          # an event kept queued across later requests, then re-encoded
     if "out" not in ops or "ev" not in ops:
         return False
     # an event with a nested value or at least four fields, later re-encoded
@@ -27,6 +29,10 @@ SPEC = dict(
          "drives a payload (MemoizeFields of present / absent / reserved keys, Get, Exists, Set of the metadata and dry-run fields Refinery adds) "
          "and re-encoded by the real Payload.MarshalMsg; the bytes are decoded by an independent decoder (vmihailenco primitives) and compared "
          "with the model and, by the monitor, with the input; some spans are sent on to a peer-type router; "
+         "15 % of the cases are request sequences: 1-3 events are posted through the real Router.batch (msgpack, peer-type router, JSON) and "
+         "stay queued while 1-20 further requests of the same shape and size, of other sizes and of other encodings go through the same "
+         "handlers in the same goroutine (the pooled HTTP body buffer is handed back and reused), and only then the queued events are "
+         "re-encoded and compared with their re-encoding right after their own request; "
          "non-trivial = an event with a nested value or >= 4 fields that is re-encoded; distinct by transcript hash",
     trusted_base=["tinylib/msgp, valyala/fastjson, json-iterator at byte level (checked differentially: hand-written encoder in, independent decoder out)",
                   "JSON number parsing is an external function of the model: where the library's float64 is not strconv's the harness passes its value "
